@@ -500,6 +500,7 @@ pub fn run(tier_name: &str, seed: u64) -> i32 {
     let tally = report::run_shards(t.shards, |shard| {
         let mut tally = Tally::default();
         for run in 0..t.sets_per_shard {
+            report::progress(shard, run);
             let mut w = Rng::derive(seed, shard as u64, run as u64, "c18.workload");
             let (from, to) = gen_limits(&mut w);
             for j in 0..6 {
